@@ -168,8 +168,8 @@ theorem importSrc_imported (res : Resolver) (hasGo : String → Bool) (importsOf
       simpa using hs
     · simp only [hs, Bool.false_eq_true, if_false] at h
       cases hr : res rPath p with
-      | none => rw [hr] at h; cases h
-      | some x =>
+      | error e => rw [hr] at h; cases h
+      | ok x =>
         obtain ⟨d, rp⟩ := x
         rw [hr] at h
         simp only at h
@@ -203,8 +203,8 @@ theorem good_importSrc (res : Resolver) (hasGo : String → Bool) (importsOf : S
       exact inv_refl importsOf st
     · simp only [hs, Bool.false_eq_true, if_false] at h
       cases hr : res rPath p with
-      | none => rw [hr] at h; cases h
-      | some x =>
+      | error e => rw [hr] at h; cases h
+      | ok x =>
         obtain ⟨d, rp⟩ := x
         rw [hr] at h
         simp only at h
@@ -346,7 +346,7 @@ theorem importAllWith_no_fuel (importsOf : String → List String) (imp1 : ImpSt
     nesting depth of (number of paths of `U` not yet in `rdir`) + 1 is never exceeded — because the mark is
     set before recursing and tested before anything else is done with a resolved path. -/
 theorem importSrc_no_fuel (res : Resolver) (hasGo : String → Bool) (importsOf : String → List String) (subRoot : String → String → String)
-    (U : List String) (hU : ∀ d i, i ∈ importsOf d → i ∈ U) :
+    (U : List String) (hU : ∀ d i, i ∈ importsOf d → i ∈ U) (hresf : ∀ rp q, res rp q ≠ .error .fuel) :
     ∀ fuel st rPath p, p ∈ U → unmarked U st.rdir < fuel →
       importSrc fullBook res hasGo importsOf subRoot fuel st rPath p ≠ .error .fuel := by
   intro fuel
@@ -361,8 +361,10 @@ theorem importSrc_no_fuel (res : Resolver) (hasGo : String → Bool) (importsOf 
     · simp only [hs, if_true]; intro h0; cases h0
     · simp only [hs, Bool.false_eq_true, if_false]
       cases hr : res rPath p with
-      | none => simp
-      | some x =>
+      | error e =>
+        simp only [ne_eq, Except.error.injEq]
+        intro h0; subst h0; exact hresf rPath p hr
+      | ok x =>
         obtain ⟨d, rp⟩ := x
         simp only
         by_cases hc : st.rdir.contains p = true
@@ -392,7 +394,7 @@ theorem importSrc_no_fuel (res : Resolver) (hasGo : String → Bool) (importsOf 
 /-- an import path met again while it is being loaded (marked, not yet registered) is an error -/
 theorem importSrc_in_progress_is_cycle (res : Resolver) (hasGo : String → Bool) (importsOf : String → List String) (subRoot : String → String → String)
     (fuel : Nat) (st : ImpState) (rPath p d rp : String)
-    (hres : res rPath p = some (d, rp)) (hin : p ∈ st.rdir) (hnot : p ∉ st.srcPkg) :
+    (hres : res rPath p = .ok (d, rp)) (hin : p ∈ st.rdir) (hnot : p ∉ st.srcPkg) :
     importSrc fullBook res hasGo importsOf subRoot (fuel + 1) st rPath p = .error (.cycle p) := by
   unfold importSrc
   have h1 : st.srcPkg.contains p = false := by simpa using hnot
